@@ -128,14 +128,15 @@ theorem ready_holds (h : HS) (hr : ready h = true) : Holds h := by
         rw [fmt_bin ho]
         simp only [toks]
         refine good_inter gL hLc gR hsep hoc ?_ (isSep_of_false _ hep)
-        rcases hsepar with (h | h) | h
+        rcases hsepar with ((h | h) | h) | h
         · left; intro e; simp [e] at h
         · right; left
           obtain ⟨R', ts', h1, h2, h3⟩ := hLp h
           exact ⟨R', ts', h1, h2, h3⟩
-        · right; right
+        · right; right; left
           obtain ⟨R', ts', h1, h2, h3⟩ := hRp h
           exact ⟨R', ts', h1, h2, h3⟩
+        · right; right; right; exact h
       | union =>
         obtain ⟨a, b, hab, ha, hac, hb, hbc⟩ := unionOpr_shape hop
         have semL := (link_sem (ws := g.lchain) (b := false) hL.2.1 (by simp)).1
